@@ -11,4 +11,6 @@ Next == UNCHANGED m
 Spec == Init /\ [][Next]_m
 Correct == NormalOrderCorrect(m, NM)
 CARHolds == CAR(NM)
+\* the set representation of Fock states (used beyond one machine word) acts like the integer one, for the monomial m
+SetAgrees == SetActionAgrees(NM, {m})
 =============================================================================
